@@ -206,6 +206,7 @@ func runC08(c *core.Ctx) {
 	runR82(c)
 	runR811(c)
 	runR814(c)
+	runR815(c)
 	runR83(c)
 	runR84(c)
 	runR85(c)
